@@ -56,6 +56,9 @@ func connectBuf(connack []byte, bufSize int) (*session, error) {
 
 var clientBufSize int64 = 16384
 
+// clientClean is the CleanSession flag of the CONNECT connectOpt builds.
+var clientClean = true
+
 func connectOpt(connack []byte, smallBuffers bool) (*session, error) {
 	fs, err := wire.NewFakeServer()
 	if err != nil {
@@ -66,7 +69,7 @@ func connectOpt(connack []byte, smallBuffers bool) (*session, error) {
 	s.cl = &service.Client{BufferSize: clientBufSize, ConnectTimeout: 2}
 	cm := message.NewConnectMessage()
 	cm.SetVersion(4)
-	cm.SetCleanSession(true)
+	cm.SetCleanSession(clientClean)
 	cm.SetClientID([]byte(s.id))
 	cm.SetKeepAlive(120)
 	if err := s.dial(cm, connack); err != nil {
